@@ -303,8 +303,7 @@ def _c10_extra(recs):
                     listed += int(out[0])
     return dict(answers_suppressed=sup, known_answers_listed=listed)
 
-CONFIG = {
-    "C19": dict(
+_C19_DAEMON = dict(
         modules=["Mdns.Props.C19Daemon"],
         model_files="Mdns/Model/Sched.lean",
         nontrivial=_sim_nontrivial,
@@ -329,6 +328,256 @@ CONFIG = {
                  "one theorem over runAll"],
         assumptions=["event receivers stay alive (a dropped receiver ends the search early: not generated here)",
                      "one `now` per loop iteration"],
+)
+
+# ------------------------------------------------------------------ C08 / C18 / C19
+
+_RDATA_ARGS = {"a": 1, "aaaa": 1, "ptr": 1, "txt": 1, "srv": 4, "hinfo": 2, "nsec": 2}
+
+
+def _recdescs_of(toks, i):
+    """parse `n (<namehex> <ty> <class> <ttl> <rdata>)*` at toks[i]; returns (items, next index)"""
+    n = int(toks[i])
+    i += 1
+    items = []
+    for _ in range(n):
+        k = 5 + _RDATA_ARGS[toks[i + 4]]
+        items.append(toks[i:i + k])
+        i += k
+    return items, i
+
+
+def _shrink_tiebreak(op):
+    toks = op.split(" ")
+    try:
+        a, j = _recdescs_of(toks, 4)
+        b, end = _recdescs_of(toks, j)
+    except (ValueError, IndexError, KeyError):
+        return
+
+    def line(a, b):
+        return " ".join(toks[:4] + [str(len(a))] + [t for it in a for t in it] + [str(len(b))] + [t for it in b for t in it])
+    for k in range(len(a)):
+        yield line(a[:k] + a[k + 1:], b)
+    for k in range(len(b)):
+        yield line(a, b[:k] + b[k + 1:])
+
+
+shrinkers["tiebreak"] = _shrink_tiebreak
+
+_KIND_ARGS = {"all": 0, "ipv4": 0, "ipv6": 0, "lo4": 0, "lo6": 0, "name": 1, "addr": 1, "idx4": 1, "idx6": 1,
+              "pred-prefix": 1, "pred-parity": 1}
+
+
+def _ifaces_of(toks, i):
+    n = int(toks[i])
+    i += 1
+    items = []
+    for _ in range(n):
+        k = 4 if toks[i + 1] == "none" else 5
+        items.append(toks[i:i + k])
+        i += k
+    return items, i
+
+
+def _shrink_select(op):
+    toks = op.split(" ")
+    try:
+        n = int(toks[1])
+        i = 2
+        sels = []
+        for _ in range(n):
+            k = 2 + _KIND_ARGS[toks[i]]
+            sels.append(toks[i:i + k])
+            i += k
+        ifs, _ = _ifaces_of(toks, i)
+    except (ValueError, IndexError, KeyError):
+        return
+
+    def line(sels, ifs):
+        return " ".join(["select", str(len(sels))] + [t for it in sels for t in it] + [str(len(ifs))] + [t for it in ifs for t in it])
+    for k in range(len(sels)):
+        yield line(sels[:k] + sels[k + 1:], ifs)
+    for k in range(len(ifs)):
+        yield line(sels, ifs[:k] + ifs[k + 1:])
+
+
+shrinkers["select"] = _shrink_select
+
+
+def _shrink_backoff(op):
+    toks = op.split(" ")
+    try:
+        k = int(toks[4])
+    except (ValueError, IndexError):
+        return
+    for smaller in (2, 3, k // 2, k - 1):
+        if 1 <= smaller < k:
+            yield " ".join(toks[:4] + [str(smaller)])
+
+
+shrinkers["backoff"] = _shrink_backoff
+
+for _k in ("name-change", "hostname-change", "check-name", "split-sub", "escaped-labels"):
+    mutators[_k] = _mutate_hex_op
+
+
+def _c08_nontrivial(r):
+    t = r["op"].split(" ")
+    if t[0] == "rec-compare":
+        # class and type equal: the RDATA comparison decides
+        try:
+            a, _ = _recdescs_of(["2"] + t[1:], 0)
+        except (ValueError, IndexError, KeyError):
+            return False
+        return a[0][1:3] == a[1][1:3] and (int(a[0][2]) ^ int(a[1][2])) & 0x7FFF == 0
+    if t[0] == "tiebreak":
+        # probe started and both sides bring records
+        try:
+            a, j = _recdescs_of(t, 4)
+            b, _ = _recdescs_of(t, j)
+        except (ValueError, IndexError, KeyError):
+            return False
+        return int(t[1]) < int(t[2]) and len(a) > 0 and len(b) > 0
+    if t[0] in ("name-change", "hostname-change"):
+        return r["impl"].startswith("ok")
+    return False
+
+
+def _c08_extra(recs):
+    lost = ties = rt0 = 0
+    for r in recs:
+        if r["op"].startswith("tiebreak ") and r["impl"].startswith("ok"):
+            n = r["impl"].split(" ").count("lost")
+            lost += n == 1
+            ties += n == 0
+            rt0 += "rt=0" in r.get("meas", "")
+    return dict(tiebreaks_with_one_loser=lost, tiebreaks_without_loser=ties,
+                tiebreaks_where_the_wire_changed_the_compared_data=rt0)
+
+
+def _c18_nontrivial(r):
+    t = r["op"].split(" ")
+    if t[0] in ("select", "select-at"):
+        return t[1] != "0" and not r["impl"].startswith("ok 0")
+    if t[0] == "valid-ip":
+        return len(t[1]) == len(t[2])
+    if t[0] == "addrs-on-intf":
+        return t[2] != "0" and t[-1] != "0" and len(t) > 5
+    return t[0] in ("if-match", "resolve-addr")
+
+
+def _c19_nontrivial(r):
+    t = r["impl"].split(" ")
+    return t[0] == "ok" and len(t) > 3 and int(t[2]) >= 1
+
+CONFIG = {
+    "C08": dict(
+        modules=["Mdns.Props.C08"],
+        model_files="Mdns/Model/Compare.lean, Mdns/Model/Names.lean",
+        nontrivial=_c08_nontrivial,
+        extra_evidence=_c08_extra,
+        partial=[
+            "component level only: the comparison, the tiebreak decision, the renaming functions and the name checks",
+            "not yet covered (daemon level): detection of a conflicting response while probing and after announcing",
+            "not yet covered (daemon level): the renamed service is probed again, announced, reported as NameChange and answered under the new name only (names_consistent, conflict_contract)",
+            "not yet covered (daemon level): restart of probing one second after a lost tiebreak (timer), two_daemons_converge",
+            "clause 'the new name is still encodable': full statement false of the code (D13, D14, D15, D15b are known findings); proved: rename_keeps_name_encodable_partial",
+        ],
+        rule="exhaustive: rec-compare on all ordered pairs of a 46-record alphabet (every RDATA kind, neighbouring values, both "
+             "classes, cache-flush bit, type numbers that belong to another kind); tiebreak on all ordered pairs of record lists of "
+             "length <= 2 over 7 records (quick) / length <= 3 over 5 records (thorough), each executed from both probers' "
+             "perspectives through the crate's encoder and decoder. From VERIF_SEED: random larger record sets, reordered / "
+             "one-record-changed copies, foreign owner names, probe not yet started; probe timing at 0/249/250/251/499/500/749/750/751 ms; "
+             "renaming of 33 first labels (escaped dots and backslashes, multi-byte UTF-8, spaces, parentheses, hyphens) x 27 "
+             "number spellings (0, 9, 99, leading zeros, '+', '-', 4294967294..4294967296, 20 digits, non-ASCII digits) as '(N)' and "
+             "'-N' suffix x 6 tails, label lengths 55..65 and name lengths 249..256, repeated renaming; the name checks on 665 "
+             "type/instance/domain combinations. Non-trivial = comparison reaching RDATA / started probe with records on both sides / "
+             "rename that returns. Distinct = distinct op lines.",
+        level_text="Component-level part of C08. Lean theorems for all records and record lists: the comparison is class, then type, then "
+                   "RDATA (compare_order); it is antisymmetric and equal only on identical data (compare_antisymm, compare_eq_iff; decoded "
+                   "records are proved well-typed, decoded_compatible), so two probers reach opposite verdicts, never both yield, and nobody "
+                   "yields only on identical data (tiebreak_opposite, tiebreak_tie_iff, tiebreak_two_probers); fewer records yield "
+                   "(tiebreak_length_rule); the loser restarts exactly one second later (tiebreaking_spec). name_change / hostname_change "
+                   "append ' (2)' / '-2' or count an existing suffix up, keep everything from the first dot on, count 2, 3, 4, ... on repeated "
+                   "renaming, never return an error and panic only on the u32 overflow at 4294967295 (name_change_spec, hostname_change_spec, "
+                   "*_counts_up, rename_panics_only_on_overflow); the first part grows by at most 4 / 2 bytes (rename_label_bound). The full "
+                   "clause 'the new name is still encodable' is false of the code (rename_keeps_name_encodable_full_is_false; known findings "
+                   "D13, D14, D15, D15b); proved instead: rename_keeps_name_encodable_partial (first label without escapes, <= 59 / 61 bytes, "
+                   "name <= 251 / 253 bytes). The model is compared with DnsRecordExt::compare, Probe::tiebreaking (through the real encoder and "
+                   "decoder, from both probers' sides), name_change, hostname_change, the check_* functions and parse_escaped_name of the working "
+                   "tree on every run, and the theorems' conclusions are evaluated on the real outputs. The daemon-level clauses of C08 (see "
+                   "coverage.partial) are not covered yet.",
+        level_note="Trusted: Lean kernel; axioms propext, Classical.choice, Quot.sound only; hand-written model tied to the code by differential "
+                   "testing of this run's inputs; the order of same-type records inside a probe (binary_search_by leaves it open) is read from "
+                   "the implementation. Known findings D13, D14, D15, D15b are reproduced on every run and listed, not suppressed silently.",
+        assumptions=[
+            "the order insert_record gives records of equal (class, type) is unspecified by binary_search_by; it is read from the implementation "
+            "after checking that it is a sorted permutation, and the theorems hold for every such order",
+            "tiebreak ops use owner names and RDATA names without escapes and with a trailing dot, for which encoder and decoder keep the compared "
+            "data (measured per op as rt=1); SRV targets are compared as decoded strings, not in wire form",
+            "compare is antisymmetric for records whose Rust struct is determined by class and type (all decoded records, all records the daemon "
+            "builds); a pointer record constructed with the type number of an address record compares Greater in both directions",
+            "now + 1000 and start + 750 are modelled without u64 overflow",
+        ],
+    ),
+    "C18": dict(
+        modules=["Mdns.Props.C18"],
+        model_files="Mdns/Model/Intf.lean",
+        nontrivial=_c18_nontrivial,
+        partial=[
+            "component level only: IfKind::matches, the selection loop, resolve_addr_to_index, valid_ip_on_intf, get_addrs_on_my_intf_v4/v6",
+            "not yet covered (daemon level): every packet for a service leaves only on selected interfaces in a common subnet and carries only such addresses (send_only_on_link)",
+            "not yet covered (daemon level): addr_auto services follow address changes; records learned on a removed interface disappear (intf_removed_spec); family_disabled_spec",
+        ],
+        rule="exhaustive: every IfKind of a 19-kind alphabet against 11 interfaces (v4/v6, loopback, index none/0, shared names); every "
+             "enable/disable sequence of length <= 3 over 6 kinds and of length 4 over 4 kinds on topologies of 1-3 interfaces; every "
+             "prefix length 0..32 (and 0,1,7,8,9,63,64,65,127,128 for v6; all in thorough) with addresses differing from the interface "
+             "address in the bit before / at / after the prefix boundary, non-contiguous masks, mixed families. From VERIF_SEED: random "
+             "selection sequences (length <= 6) on random tables (<= 4 entries, duplicates, empty), Addr selections resolved against "
+             "the table of their call and applied to a later table, service address sets against interface address sets. "
+             "Non-trivial = at least one selection and one interface / same-family subnet test / non-empty address sets. "
+             "Distinct = distinct op lines.",
+        level_text="Component-level part of C18. Lean theorems: an interface is selected iff the last matching selection (in call order) "
+                   "enables it, enabled by default, independently of the other interfaces present, hence also for interfaces that appear "
+                   "later (selected_iff, selected_later_interface, last_match_wins); an Addr selection is stored as index + family when the "
+                   "address is present at the time of the call (resolve_addr_spec); the subnet test is equality under the netmask, octet by "
+                   "octet, which for a /p mask is equality of the leading p bits, and never holds across families (validIp_iff_bytes, "
+                   "validIp_iff_same_subnet, validIp_family); the addresses used on an interface are exactly the service's addresses of that "
+                   "family lying in the subnet of one of the interface's addresses (addrsOnIntf_iff, addrsOnIntf_sublist). The model is compared "
+                   "with Zeroconf::selected_intfs (called on a real Zeroconf value), IfKind::matches, resolve_addr_to_index, valid_ip_on_intf "
+                   "and get_addrs_on_my_intf_v4/v6 of the working tree on every run and the theorems' conclusions are evaluated on the real "
+                   "outputs. The daemon-level clauses (see coverage.partial) are not covered yet.",
+        level_note="Trusted: Lean kernel; axioms propext, Classical.choice, Quot.sound only; hand-written model tied to the code by differential "
+                   "testing of this run's inputs; IfKind::Predicate is exercised with two named predicate families shared by harness and model.",
+        assumptions=[
+            "IfKind::Predicate closures are represented by two named families (name prefix, index parity) defined identically in harness and model",
+            "apply_intf_selections contains a textual copy of the loop of selected_intfs; only the latter is callable at component level, the former is observed at daemon level later",
+        ],
+    ),
+    "C19": dict(
+        modules=["Mdns.Props.C19"],
+        model_files="Mdns/Model/Delay.lean",
+        nontrivial=_c19_nontrivial,
+        partial=[
+            "component level only: the delay arithmetic, observed on a single undisturbed browse / hostname search of a real daemon thread in virtual time",
+            "not yet covered (daemon level): at most one schedule per type/host (OneSchedule; known defect D9), exempt causes (cache refresh, resolve follow-ups, interface changes), query_rate with responders, stop/restart",
+        ],
+        rule="fixed cases: browse and resolve_hostname on a simulated one-interface daemon, nobody answers; the first k queries for "
+             "k in {1,2,5,13,14,16} (thorough: up to 40) with the virtual clock following the daemon's requested wake-ups; 2^11 s = 2048 s "
+             "is the last doubled gap below the cap, the next gaps are 3600 s. Non-trivial = at least two queries observed. Distinct = distinct op lines.",
+        level_text="Component-level part of C19. Lean theorems: delay 0 = 1 s and delay (n+1) = min (2 * delay n) 3600 (delay_seq), closed form "
+                   "min (2^n) 3600 (delay_closed_form), between 1 s and one hour, monotone, doubling exactly up to 2048 s and one hour from the "
+                   "12th repetition on (delay_bounds, delay_mono, delay_cap); the code's u32 arithmetic never overflows along the sequence and "
+                   "yields the gaps 1000 * delay i ms (gaps_spec, gaps_no_panic). The model is compared with the send times of real browse / "
+                   "resolve_hostname searches of the working tree (real daemon thread, virtual clock) on every run and the closed form is evaluated "
+                   "on the observed gaps. The daemon-level clauses (see coverage.partial) are not covered yet.",
+        level_note="Trusted: Lean kernel; axioms propext, Classical.choice, Quot.sound only; hand-written model tied to the code by differential "
+                   "testing of this run's inputs; the simulation seams of verif-hooks (virtual clock, loop gate, egress capture).",
+        assumptions=[
+            "Timely scheduler: the daemon is run exactly at the wake-ups it requests (the harness moves the virtual clock there)",
+            "the doubling expression is inline in exec_command_browse / exec_command_resolve_hostname, so it is observed through query send times, not called",
+        ],
     ),
     "C01": dict(
         modules=["Mdns.Props.C01"],
@@ -446,6 +695,20 @@ CONFIG = {
         ],
     ),
 }
+
+# C19 = component level (delay arithmetic, `backoff` ops) + daemon level (scheduler model, `sim` histories)
+_c19_comp = CONFIG["C19"]
+CONFIG["C19"] = dict(
+    modules=_c19_comp["modules"] + _C19_DAEMON["modules"],
+    model_files=_c19_comp["model_files"] + ", " + _C19_DAEMON["model_files"],
+    nontrivial=lambda r: (_sim_nontrivial(r) if r["op"].startswith("sim") else _c19_comp["nontrivial"](r)),
+    extra_evidence=_sim_extra,
+    rule=_C19_DAEMON["rule"] + " PLUS component level: " + _c19_comp["rule"],
+    level_text=_C19_DAEMON["level_text"] + " Component level: " + _c19_comp["level_text"],
+    level_note=_C19_DAEMON["level_note"],
+    partial=_C19_DAEMON["partial"],
+    assumptions=_C19_DAEMON["assumptions"] + _c19_comp["assumptions"],
+)
 
 # reasons for properties that are deliberately not claimed (default text in tools/mkmanifest.py)
 NOT_CLAIMED = {}
